@@ -21,8 +21,8 @@ import (
 // Whatever path a transaction took before, queueing it makes it eligible for
 // the next retrieval and storing it does not.
 func TestVP_C23_entry_points(t *testing.T) {
-	c := kit.New(t, "C23", "rapid: a real node and 3..8 valid deposit transactions; 8..40 operations drawn from: local submission (QueueTransaction), peer queueing of 1..3 transactions (CacheQueueTransactions), peer body delivery (CacheStoreTransactions), retrieval with a limit in {1,2,1000} (CacheRetrieveTransactions), admission into the ledger store without finalization (Validate + lockAndPersistTransaction, what verifying somebody's proposal does) and finalization through another chain's snapshot; model per transaction: eligible or not (queued and not yet retrieved); oracle: a retrieval returns only eligible transactions, each at most once and no more than the limit, and with a limit above the number of eligible ones exactly the eligible set; a submission or peer queueing of an unfinalized transaction makes it eligible whatever happened to it before (retrieved, body already cached, body only in the ledger store); body delivery never does; finalized transactions are left out of the judgement; non-trivial = a transaction queued again after a retrieval or after its admission into the ledger store; distinct by trace")
-	c.Require("submit", "peer-queue", "peer-store", "retrieve-all", "retrieve-limited", "requeued-after-retrieval", "queued-after-ledger-admission", "submitted-with-cached-body", "stored-only-not-eligible", "finalized")
+	c := kit.New(t, "C23", "rapid: a real node and 3..8 valid deposit transactions; 8..40 operations drawn from: local submission (QueueTransaction), peer queueing of 1..3 transactions (CacheQueueTransactions), peer body delivery (CacheStoreTransactions), the kernel's hand-back of a retired batch of 1..4 transactions in drawn order (requeueTransactions), retrieval with a limit in {1,2,1000} (CacheRetrieveTransactions), admission into the ledger store without finalization (Validate + lockAndPersistTransaction, what verifying somebody's proposal does) and finalization through another chain's snapshot; model per transaction: eligible or not (queued and not yet retrieved); oracle: a retrieval returns only eligible transactions, each at most once and no more than the limit, and with a limit above the number of eligible ones exactly the eligible set; a submission or peer queueing of an unfinalized transaction makes it eligible whatever happened to it before (retrieved, body already cached, body only in the ledger store); body delivery never does; finalized transactions are left out of the judgement; non-trivial = a transaction queued again after a retrieval or after its admission into the ledger store; distinct by trace")
+	c.Require("submit", "peer-queue", "peer-store", "retrieve-all", "retrieve-limited", "requeued-after-retrieval", "queued-after-ledger-admission", "submitted-with-cached-body", "stored-only-not-eligible", "finalized", "kernel-requeue", "requeued-behind-finalized-member")
 	kit.SetChecks(kit.N(60, 2500))
 	rapid.Check(t, func(t *rapid.T) {
 		e := vpC16Start("c23k")
@@ -101,6 +101,35 @@ func TestVP_C23_entry_points(t *testing.T) {
 						classes["queued-after-ledger-admission"] = true
 					}
 					y.eligible, y.cached = true, true
+				}
+			case op == 4 && rapid.Bool().Draw(t, "requeue_instead"): // the kernel hands a retired batch back (requeueTransactions)
+				k := rapid.IntRange(1, 4).Draw(t, "requeue_n")
+				var list []crypto.Hash
+				var names []string
+				for _, idx := range rapid.Permutation(vpC24Range(n)).Draw(t, "requeue_txs")[:min(k, n)] {
+					list = append(list, pool[idx].hash)
+					names = append(names, pool[idx].hash.String()[:6])
+				}
+				node.requeueTransactions(list)
+				trace = append(trace, "requeue("+strings.Join(names, ",")+")")
+				classes["kernel-requeue"] = true
+				sawFinal := false
+				for _, h := range list {
+					y := byHash[h]
+					if y.final {
+						sawFinal = true
+						continue
+					}
+					if !y.cached && !y.admitted {
+						continue // no body anywhere: nothing to queue
+					}
+					if sawFinal {
+						classes["requeued-behind-finalized-member"] = true
+					}
+					if y.retrieved && !y.eligible {
+						classes["requeued-after-retrieval"] = true
+					}
+					y.eligible = true
 				}
 			case op == 4: // a peer delivers the body only
 				if err := node.CacheStoreTransactions(peer, []*common.VersionedTransaction{x.ver}); err != nil {
